@@ -8,17 +8,26 @@ MCPriceOf == [t \in -2..2 |-> CASE t = -2 -> 52 [] t = -1 -> 58 [] t = 0 -> 64 [
 MCMinTick == -2
 MCRanges == {<<-2, 2>>, <<-1, 1>>, <<0, 2>>, <<-2, 0>>, <<-1, 0>>, <<0, 1>>}
 MCStartGrowth == {0, 1048570}
+MCNoLimits == {0}
+MCVacuous == {-1}
+MCLimits == {0, 55, 58, 61, 68, 71}      \* none, inside a tick, exactly on a tick (both sides of the start price)
+MCThresholds == {-1, 6}
 
 (* Vacuity guard (run with -workers 1 on a small bound): every kind of operation is taken in some
    behaviour, and a swap with several steps / a crossing / a wrap-around occurs.               *)
 OpIndex == [init |-> 10, open |-> 11, close |-> 12, increase |-> 13, decrease |-> 14, update |-> 15,
             collect |-> 16, collect_protocol |-> 17, swap |-> 18]
-CovInit == Init /\ \A i \in 10..21 : TLCSet(i, FALSE)
+CovInit == Init /\ \A i \in 10..24 : TLCSet(i, FALSE)
 CovSpec == CovInit /\ [][Next]_vars
 Tally ==
   /\ TLCSet(OpIndex[last.op], TRUE)
   /\ (last.op = "swap" /\ Len(last.steps) > 1) => TLCSet(19, TRUE)
   /\ (last.op = "swap" /\ \E k \in DOMAIN last.steps : last.steps[k].crossed /\ last.steps[k].L > 0) => TLCSet(20, TRUE)
   /\ (\E t \in Tok : fg[t] < 1000 /\ \E i \in PosIds : pos[i].open /\ (pos[i].ca > 1000000 \/ pos[i].cb > 1000000)) => TLCSet(21, TRUE)
+  /\ (last.op = "swap" /\ last.lim # 0 /\ (IF last.exactIn THEN last.ain ELSE last.aout) < last.amt /\ sp = last.lim) => TLCSet(22, TRUE)   \* stopped at an explicit limit
+  /\ (last.op = "swap" /\ last.lim # 0 /\ \E t \in Ticks : ticks[t].init /\ P(t) = sp) => TLCSet(23, TRUE)                                   \* ... which is an initialized tick
+  /\ (last.op = "swap" /\ last.threshold \notin {0, 1000000}) => TLCSet(24, TRUE)                                                           \* with a real slippage threshold
 CovOK == \A i \in 11..20 : TLCGet(i)
+\* (register 24 is informative only: a swap with a real threshold reaches the same core state as one without, and the VIEW keeps one of them)
+CovLimitsOK == \A i \in 11..23 : i = 21 \/ TLCGet(i) \/ (PrintT(<<"never taken", i>>) /\ FALSE)
 =============================================================================
